@@ -65,7 +65,9 @@ def make_spec(rng):
     for k in range(1, noff + 1):
         units["dv0_%d" % k] = vel
     t_ref = None if rng.random() < 0.3 else float(np.round(rng.uniform(50000, 60000), 3))
-    return Spec(names, {k: units[k] for k in names}, np.float64, t_ref, poly, noff)
+    sp = Spec(names, {k: units[k] for k in names}, np.float64, t_ref, poly, noff)
+    sp.t_ref_scale = str(rng.choice(["tcb", "utc", "tdb"], p=[.5, .3, .2]))     # scale the epoch is *given* in
+    return sp
 
 
 _tag = [0]
@@ -90,6 +92,9 @@ def build_samples(spec, cols):
     from astropy.time import Time
     from thejoker import JokerSamples
     t_ref = None if spec.t_ref is None else Time(spec.t_ref, format="mjd", scale="tcb")
+    sc = getattr(spec, "t_ref_scale", "tcb")
+    if t_ref is not None and sc != "tcb":
+        t_ref = getattr(t_ref, sc)          # the same instant, expressed on another time scale
     s = JokerSamples(t_ref=t_ref, poly_trend=spec.poly, n_offsets=spec.noff)
     for k in spec.names:
         s[k] = cols[k] * spec.units[k]
@@ -128,7 +133,7 @@ def compare_read(path, spec, model_rows, fits=False, via=None):
             bad = int(np.sum(got != want)) if got.shape == want.shape else -1
             return ("read-values", "column %s: %d values differ from what was written" % (k, bad))
     tr = back.t_ref
-    if (tr is None) != (spec.t_ref is None) or (tr is not None and float(tr.tcb.mjd) != spec.t_ref):
+    if (tr is None) != (spec.t_ref is None) or (tr is not None and abs(float(tr.tcb.mjd) - spec.t_ref) > 1e-9):
         return ("read-t_ref", "t_ref %r, model %r" % (tr, spec.t_ref))
     if back.poly_trend != spec.poly or back.n_offsets != spec.noff:
         return ("read-metadata", "poly_trend/n_offsets %r/%r, model %r/%r"
@@ -294,6 +299,7 @@ def run(ctx):
                                            "poly_trend", "n_offsets", "dtype"]))
                     desc["bad_kind"] = kind
                     s2 = Spec(spec.names, spec.units, spec.dtype, spec.t_ref, spec.poly, spec.noff)
+                    s2.t_ref_scale = getattr(spec, "t_ref_scale", "tcb")
                     tolerated_if_correct = False
                     if kind == "extra-column":
                         cand = [k for k in ["s", "K", "v0", "ln_prior", "ln_likelihood", "e", "omega", "M0"]
